@@ -313,6 +313,16 @@ func exprName(v ssa.Value) string {
 		}
 	case *ssa.Slice:
 		return exprName(x.X)
+	case *ssa.IndexAddr:
+		return exprName(x.X)
+	case *ssa.Field:
+		if st, ok := types.Unalias(x.X.Type()).Underlying().(*types.Struct); ok {
+			return st.Field(x.Field).Name()
+		}
+	case *ssa.Extract:
+		return exprName(x.Tuple)
+	case *ssa.Call:
+		return "result"
 	}
 	return "expr"
 }
